@@ -46,6 +46,8 @@ ARITH = {
     "core::ops::arith::Add": "+", "core::ops::arith::Sub": "-",
     "core::ops::arith::Mul": "*", "core::ops::arith::Div": "/",
 }
+ASSIGN_ARITH = {"core::ops::arith::AddAssign": "+", "core::ops::arith::SubAssign": "-", "core::ops::arith::MulAssign": "*",
+                "core::ops::arith::DivAssign": "/", "core::ops::arith::RemAssign": "%"}
 ITER = "core::iter::traits::iterator::Iterator::"
 ITER_NEXT = ITER + "next"
 BINOPS = {"Add": "+", "Sub": "-", "Mul": "*", "Div": "/", "Rem": "%"}
@@ -274,6 +276,8 @@ def gadd(guard, atom, pol):
 
 class Evaluator:
     def __init__(self, U, inline=(), max_depth=6, keep_tags=True, stop=(), overrides=None):
+        self.tysubst = []      # generic-argument frames of the bodies being inlined
+        self.mut_exprs = {}    # (call node, argument index) -> place expression borrowed mutably
         self.overrides = dict(overrides or {})   # per type: {"Unit::from_symbol": path of the overriding impl method}
         self.U = U
         self.inline = set(inline)
@@ -860,17 +864,80 @@ class Evaluator:
             caps.append((cap["var"], vs[0][1]))
         yield (st.guard, "val", ("closure", e["def"], tuple(caps)), st.env)
 
+    # -- places ------------------------------------------------------------
+    def place(self, l, sp=None):
+        """(variable id, [(field name, index, struct path)...]) of a place expression rooted in a local variable;
+        references are transparent, so `*self`, `self.amount` and `(*self).amount` are places of `self`."""
+        path = []
+        x = l
+        while True:
+            if x["k"] in ("deref", "ref", "coerce"):
+                x = x["e"]
+            elif x["k"] == "block" and not x["stmts"] and x["expr"] is not None:
+                x = x["expr"]
+            elif x["k"] == "field":
+                path.append((x.get("name"), x.get("idx"), x.get("adt")))
+                x = x["e"]
+            else:
+                break
+        if x["k"] not in ("var", "upvar"):
+            raise Unsupported("assignment to a place that is not rooted in a local variable", sp or l.get("sp"))
+        return x["id"], list(reversed(path))
+
+    def struct_fields(self, adt_path):
+        for c in self.U.crates:
+            a = c.adt_by_path.get(adt_path)
+            if a is not None and not a.get("is_enum") and a.get("variants"):
+                return [f["name"] for f in a["variants"][0]["fields"]]
+        return None
+
+    def set_path(self, cur, path, value, sp=None):
+        if not path:
+            return value
+        (name, idx, adt) = path[0]
+        if cur[0] != "adt":
+            # a symbolic struct value: written out field by field
+            names = self.struct_fields(adt) if adt else None
+            if names is None or name is None:
+                raise Unsupported("field assignment on a value of unknown layout", sp)
+            cur = ("adt", adt, "", tuple((n, self.field(cur, i, n)) for i, n in enumerate(names)))
+        fields = []
+        hit = False
+        for i, (n, x) in enumerate(cur[3]):
+            if (name is not None and n == name) or (name is None and i == idx):
+                fields.append((n, self.set_path(x, path[1:], value, sp)))
+                hit = True
+            else:
+                fields.append((n, x))
+        if not hit:
+            raise Unsupported("field assignment: no such field", sp)
+        return ("adt", cur[1], cur[2], tuple(fields))
+
+    def write(self, env, l, value, sp=None):
+        vid, path = self.place(l, sp)
+        if vid not in env:
+            raise Unsupported("assignment to an unbound variable", sp)
+        env2 = dict(env)
+        env2[vid] = self.set_path(env[vid], path, value, sp)
+        return env2
+
     def ev_assign(self, e, st, depth, body):
-        l = e["l"]
-        if l["k"] != "var":
-            raise Unsupported("assignment to a non-variable place", e.get("sp"))
         for (g, kind, t, env) in self.ev(e["r"], st, depth, body):
             if kind != "val":
                 yield (g, kind, t, env)
             else:
-                env2 = dict(env)
-                env2[l["id"]] = t
-                yield (g, "val", ("unit",), env2)
+                yield (g, "val", ("unit",), self.write(env, e["l"], t, e.get("sp")))
+
+    def ev_assign_op(self, e, st, depth, body):
+        """built-in compound assignment (primitive amounts): place = place op value"""
+        op = {"AddAssign": "+", "SubAssign": "-", "MulAssign": "*", "DivAssign": "/", "RemAssign": "%",
+              "Add": "+", "Sub": "-", "Mul": "*", "Div": "/", "Rem": "%"}.get(e["op"])
+        if op is None:
+            raise Unsupported("compound assignment " + e["op"], e.get("sp"))
+        sink = []
+        for (g, ts, env) in self.product([e["l"], e["r"]], st, depth, body, sink):
+            yield (g, "val", ("unit",), self.write(env, e["l"], (op, ts[0], ts[1]), e.get("sp")))
+        yield from sink
 
     # -- calls -----------------------------------------------------------
     def ev_call(self, e, st, depth, body):
@@ -890,6 +957,7 @@ class Evaluator:
                 if tgt["k"] in ("var", "upvar"):
                     # a named place stays observable after the call
                     mut_places.append((i, tgt))
+                    self.mut_exprs[(id(e), i)] = x["e"]
         sink = []
         for (g, args, env) in self.product(e["args"], st, depth, body, sink):
             yield from self.apply(f, args, g, env, depth, body, e, mut_places)
@@ -899,6 +967,57 @@ class Evaluator:
         if f.get("trait") in QT:
             return QT[f["trait"]] + "::" + f["name"]
         return f["path"]
+
+    # -- generic arguments of inlined callees -----------------------------------
+    def rty(self, t):
+        """An exported type with the generic parameters of the body being inlined replaced by the call site's
+        arguments (`Self`, `Rhs`, `Res` of a shared helper become the operator's concrete types)."""
+        frame = self.tysubst[-1] if self.tysubst else None
+        if not frame or not isinstance(t, dict):
+            return t
+        k = t.get("k")
+        if k == "param":
+            return frame.get(t.get("name"), t)
+        if k == "ref":
+            inner = self.rty(t["ty"])
+            if inner is t["ty"]:
+                return t
+            r = dict(t)
+            r["ty"] = inner
+            r["s"] = "&" + ("mut " if t.get("mut") else "") + inner.get("s", "?")
+            return r
+        if k == "adt" and t.get("args"):
+            args = [self.rty(a) for a in t["args"]]
+            if all(a is b for a, b in zip(args, t["args"])):
+                return t
+            r = dict(t)
+            r["args"] = args
+            return r
+        if k == "alias" and t.get("args"):
+            args = [self.rty(a) for a in t["args"]]
+            if all(a is b for a, b in zip(args, t["args"])):
+                return t
+            if t.get("path") == "quantities::Quantity::UnitType" and args[0].get("k") != "param":
+                ut = self.unit_type_of(ty_key(args[0]))
+                if ut is not None:
+                    return ut
+            r = dict(t)
+            r["args"] = args
+            tr, _, nm = t["path"].rpartition("::")
+            r["s"] = "<%s as %s>::%s" % (args[0].get("s", ty_key(args[0])), tr, nm)
+            return r
+        return t
+
+    def unit_type_of(self, qpath):
+        m = getattr(self.U, "_unit_type_of", None)
+        if m is None:
+            m = {}
+            for imp in self.U.all_impls("quantities::Quantity"):
+                it = self.U.impl_item(imp, "UnitType")
+                if it is not None:
+                    m[ty_key(imp["self_ty"])] = it.get("ty_norm") or it.get("ty")
+            self.U._unit_type_of = m
+        return m.get(qpath)
 
     def tag(self, f):
         if not self.keep_tags:
@@ -912,6 +1031,11 @@ class Evaluator:
         path = f["path"]
         tr = f.get("trait")
         name = f["name"]
+        if self.tysubst and self.tysubst[-1] and f.get("args"):
+            a2 = [self.rty(a) for a in f["args"]]
+            if any(x is not y for x, y in zip(a2, f["args"])):
+                f = dict(f)
+                f["args"] = a2
         self.calls_seen.append(f)
         self_ty = ty_key(f["args"][0]) if f.get("args") else None
         val = None
@@ -928,6 +1052,10 @@ class Evaluator:
                 val = (ARITH[tr], args[0], args[1])
         if val is None and tr == "core::ops::arith::Neg" and self_ty is not None and strip_ref(self_ty) in AMOUNT:
             val = ("neg", args[0])
+        if val is None and path == "fpdec::Decimal::new_raw" and len(args) == 2 and args[0][0] == "num" and args[1][0] == "num" \
+                and args[1][1].denominator == 1 and 0 <= args[1][1] <= 18:
+            # the expansion of a `Dec!` literal: a decimal constant
+            val = ("num", Fraction(args[0][1]) / 10 ** int(args[1][1]), "fpdec::Decimal")
         if val is None and path == "fpdec::unops::<impl fpdec::Decimal>::abs":
             val = ("abs", args[0])
         if val is None and path in ("core::f64::<impl f64>::abs", "std::f64::<impl f64>::abs"):
@@ -1055,11 +1183,47 @@ class Evaluator:
                 yield (g, "val", ("app", "iter_next", None, (args[0],)), env)
                 return
             raise Unsupported("Iterator::next on a non-variable place", sp)
+        write_back = None
         if mut_places:
-            # the Formatter is an opaque effect token; everything else fails closed
+            # the Formatter is an opaque effect token
             ok = all(self.is_formatter(e["args"][i], body) for i, _ in mut_places)
             if not ok:
+                # `place op= value` on amounts (Decimal: a library call; f64: built in, see ev_assign_op)
+                if (len(mut_places) == 1 and mut_places[0][0] == 0 and tr in ASSIGN_ARITH and len(args) == 2 and self_ty is not None
+                        and strip_ref(self_ty) in AMOUNT and (len(f["args"]) < 2 or strip_ref(ty_key(f["args"][1])) in AMOUNT)):
+                    lexpr = self.mut_exprs.get((id(e), 0))
+                    if lexpr is not None:
+                        yield (g, "val", ("unit",), self.write(env, lexpr, (ASSIGN_ARITH[tr], args[0], args[1]), sp))
+                        return
+                # a method of the analysed crates taking `&mut`: entered below, the final value of its parameter
+                # is written back to the borrowed place; anything else fails closed
+                r0 = f.get("resolved") or {}
+                tgt = r0.get("path") if r0.get("path") in self.U.body else (path if path in self.U.body and not path.startswith("core::") else None)
+                if len(mut_places) == 1 and tgt is not None and depth < self.max_depth:
+                    write_back = (mut_places[0][0], tgt)
+                else:
+                    raise Unsupported("&mut argument passed to " + path, sp)
+        if write_back is not None:
+            i, tgt = write_back
+            callee = self.U.body[tgt]
+            pj = callee["params"][i].get("pat") if i < len(callee["params"]) else None
+            lexpr = self.mut_exprs.get((id(e), i))
+            if pj is None or pj.get("k") != "bind" or lexpr is None or len(callee["params"]) != len(args):
                 raise Unsupported("&mut argument passed to " + path, sp)
+            cenv = {}
+            for pp, a in zip(callee["params"], args):
+                if "pat" in pp:
+                    self.bind(pp["pat"], a, cenv, callee)
+            self.tysubst.append({})
+            try:
+                for (g2, kind, t, e2) in self.ev(callee["value"], State(g, cenv), depth + 1, callee):
+                    if kind in ("val", "ret"):
+                        yield (g2, "val", t, self.write(env, lexpr, e2[pj["id"]], sp))
+                    else:
+                        yield (g2, kind, t, env)
+            finally:
+                self.tysubst.pop()
+            return
         # --- inlining ------------------------------------------------------------------
         target = None
         r = f.get("resolved")
@@ -1098,10 +1262,17 @@ class Evaluator:
                             target = it["path"]
         if target is not None and target in self.U.body and depth < self.max_depth:
             callee = self.U.body[target]
+            gen = callee.get("generics")
+            frame = {}
+            if gen and f.get("args") and len(gen) == len(f["args"]) and target == path:
+                # the generic body itself (not a concrete impl's): its parameters stand for the call site's arguments
+                frame = {n: a for n, a in zip(gen, f["args"]) if a.get("k") != "param" or a.get("name") != n}
+            self.tysubst.append(frame)
             try:
                 for (g2, kind, t) in self.summarize(callee, args, depth + 1, g):
                     yield (g2, kind, t, env)
             finally:
+                self.tysubst.pop()
                 if pushed:
                     self.self_ctx = self.self_ctx[:-1]
             return
